@@ -146,6 +146,7 @@ func c20(tier string) []*explore.Scenario {
 		out = append(out, c20Stats(nsh, 0))
 	}
 	out = append(out, c20Stats(2, 1))
+	out = append(out, fineGrained(c20Stats(2, 1))...)
 	return out
 }
 
@@ -401,6 +402,16 @@ func c20Stats(nsh, bound int) *explore.Scenario {
 			for i, o := range plan {
 				tag := fmt.Sprintf("r%d", i)
 				c14RPC(w, d, o.kind, o.what, tag)
+				// the caller has just been told how the call ended by an envelope from the server (a reply, the end of
+				// the stream, the handler's status): by then every stats handler has the call's End - an observer that
+				// learns the outcome from the call itself never sees a finished RPC without one
+				if r0 := w.Recs[tag]; r0 != nil && r0.COpenErr == nil && (o.what == "ok" || strings.HasPrefix(o.what, "herr")) && r0.HReturned {
+					for _, sh := range csh {
+						if ev := sh.events[i+1]; len(ev) > 0 && !strings.HasPrefix(ev[len(ev)-1], "End") {
+							vsched.Fail(fam+"|end-after-outcome", "client stats handler %s, RPC %d (%s %s): the caller already has the call's outcome (%v) but the handler has no End yet: %v", sh.name, i+1, o.kind, o.what, r0.CErr, ev)
+						}
+					}
+				}
 				vsched.QuiesceTime()
 				r := w.Recs[tag]
 				clientOK[i] = r.COpenErr == nil && (r.CErr == nil || r.CErr == io.EOF)
